@@ -66,7 +66,19 @@ def cargo_build(bins, release=False):
     return {b: os.path.join(TARGET, prof, b) for b in bins}
 
 
+def coq_project():
+    """_CoqProject is derived from the tree: every .v under coq/ (Gen/ files included)."""
+    vs = []
+    for d, _, fs in os.walk(COQ):
+        for f in fs:
+            if f.endswith(".v") and not f.startswith("."):
+                vs.append(os.path.relpath(os.path.join(d, f), COQ))
+    txt = "-Q . SG\n" + "\n".join(sorted(vs)) + "\n"
+    write_if_changed(os.path.join(COQ, "_CoqProject"), txt)
+
+
 def coq_makefile():
+    coq_project()
     mk = os.path.join(COQ, "Makefile")
     cp = os.path.join(COQ, "_CoqProject")
     if (not os.path.exists(mk)) or os.path.getmtime(mk) < os.path.getmtime(cp):
@@ -393,10 +405,16 @@ class Ctx:
 
 
 def load_known_findings():
-    p = os.path.join(ROOT, "known_findings.json")
-    if os.path.exists(p):
-        return json.load(open(p))
-    return {"findings": [], "fixed": []}
+    """known_findings.json (committed, never written at run time) = union of known_findings/*.json"""
+    out = {"findings": [], "fixed": []}
+    d = os.path.join(ROOT, "known_findings")
+    if os.path.isdir(d):
+        for f in sorted(os.listdir(d)):
+            if f.endswith(".json"):
+                j = json.load(open(os.path.join(d, f)))
+                out["findings"] += j.get("findings", [])
+                out["fixed"] += j.get("fixed", [])
+    return out
 
 
 def proofs_step(ctx, prop_files, allow="default", extra_targets=None):
